@@ -399,6 +399,11 @@ func (sp *Spec) runOnce(rep *core.Report) Stats {
 						}()
 						if sp.observeOp {
 							ops = append(append([]Op{}, ops...), Op{N: ObserveOp})
+							// ... and, if the system offers them, the individual queries as operations of
+							// their own (which query came last may matter to a stateful implementation)
+							if qo, ok := s.(interface{ QueryOps() []Op }); ok {
+								ops = append(ops, qo.QueryOps()...)
+							}
 						}
 						rs := make([]result, 0, len(ops))
 						for _, op := range ops {
